@@ -341,6 +341,7 @@ fn scenario(conn: Conn, layout: Layout, per_producer: usize, nkeys: i64, bound: 
         nontrivial: true,
         unbounded: false,
         loop_body: false,
+        sometimes: vec![],
     }
 }
 
